@@ -110,10 +110,48 @@ func Quoted() *rapid.Generator[string] {
 	})
 }
 
+// Bracketed generates an operand followed by a bracket group whose items are separated by runs
+// of one separator (`a[1:2:3:4]`, `f(x,,y)`, `{k: v: w}`, `[a; b; c]`, `x[i...]`), possibly nested
+// and possibly closed by the wrong bracket: delimiter runs of every length are a classic source of
+// off-by-one slips in hand-written parsers.
+func Bracketed() *rapid.Generator[string] {
+	item := rapid.SampledFrom([]string{"a", "1", "x.y", "i+1", "", "f()", "-2", "\"s\"", "[]int", "b[0]", "*p", "k: v", "x => x", "1:2"})
+	return rapid.Custom(func(t *rapid.T) string {
+		var gen func(depth int) string
+		gen = func(depth int) string {
+			head := rapid.SampledFrom([]string{"a", "f", "x.y", "m", "", "[]int", "T", "g()", "s[1]", "echo "}).Draw(t, "head")
+			br := rapid.SampledFrom([][2]string{{"[", "]"}, {"(", ")"}, {"{", "}"}, {"[", "]"}}).Draw(t, "br")
+			sep := rapid.SampledFrom([]string{":", ":", ",", ";", "...", ", ", " : ", "<-", "=>"}).Draw(t, "sep")
+			n := rapid.IntRange(0, 6).Draw(t, "nitems")
+			var b strings.Builder
+			b.WriteString(head + br[0])
+			for i := 0; i < n; i++ {
+				if i > 0 {
+					b.WriteString(sep)
+				}
+				if depth < 2 && rapid.IntRange(0, 5).Draw(t, "nest") == 0 {
+					b.WriteString(gen(depth + 1))
+				} else {
+					b.WriteString(item.Draw(t, "item"))
+				}
+			}
+			switch rapid.IntRange(0, 9).Draw(t, "close") {
+			case 0:
+				b.WriteString(")")
+			case 1: // unclosed
+			default:
+				b.WriteString(br[1])
+			}
+			return b.String()
+		}
+		return gen(0)
+	})
+}
+
 // XGoLexeme generates Go and XGo lexemes.
 func XGoLexeme() *rapid.Generator[string] {
 	return rapid.OneOf(
-		GoLexeme(), GoLexeme(), GoLexeme(),
+		GoLexeme(), GoLexeme(), GoLexeme(), Bracketed(),
 		rapid.SampledFrom(XGoOnlyOperators),
 		rapid.SampledFrom(xgoLitPool),
 		rapid.SampledFrom(xgoFragPool),
